@@ -238,7 +238,7 @@ func run(c Case) *pbt.Violation {
 					if !(cs.Kind == "rtmp" && c.Merge > 0) && itemToP[k] > 0 && expectsData(c, &P, cs, itemToP) {
 						want := P.recs[itemToP[k]-1]
 						wk := recKey(want)
-						if lv.c.WaitFor(func(r lalclient.Rec) bool { return recKey(r) == wk }, 10*time.Second) < 0 {
+						if lv.c.WaitFor(func(r lalclient.Rec) bool { return recKey(r) == wk }, lalclient.DeliverTimeout) < 0 {
 							return pbt.V("run-ended-early/"+cs.Kind, "consumer %d (%s, joined at item %d) left after item %d was processed but never received it (%s); got %d records",
 								i, cs.Kind, cs.JoinAt, k-1, want, len(lv.c.Recs()))
 						}
@@ -284,7 +284,7 @@ func run(c Case) *pbt.Violation {
 		if lv == nil || lv.left {
 			continue
 		}
-		if lv.c.WaitFor(func(r lalclient.Rec) bool { return recKey(r) == markerKey }, 10*time.Second) < 0 {
+		if lv.c.WaitFor(func(r lalclient.Rec) bool { return recKey(r) == markerKey }, lalclient.DeliverTimeout) < 0 {
 			if err := lv.c.Err(); err != nil {
 				return pbt.V("framing/"+lv.spec.Kind, "consumer %d (%s): %v", i, lv.spec.Kind, err)
 			}
